@@ -40,6 +40,7 @@ type W struct {
 	// Payload: "" strings, "int" unique integers, "float" unique non-integral floats,
 	// "loopint" the counter variable of the producer's for loop (L2 only)
 	Payload string `json:"payload,omitempty"`
+	MutOp   string `json:"mut_op,omitempty"` // payload "mutint": how the producer updates its variable after each send
 	// Nulls (script level): producer 0 also sends the value null, before each of its messages with an even index.
 	// null is a value like any other: it is delivered once, in order; a receiver cannot tell it from "closed and
 	// drained", the model can (the send is recorded as "null:p0-<k>", the receive as null).
@@ -118,10 +119,13 @@ func gen(r *verifsim.Rng, tier string) (any, hx.Sched) {
 			for i := range w.Producers {
 				w.Producers[i] = verifsim.Pick(r, []int{130, 300})
 			}
-			if r.Intn(2) == 0 {
+			switch r.Intn(3) {
+			case 0:
 				w.Payload = "loopint"
-			} else {
+			case 1:
 				w.SharedProd = true
+			default:
+				w.Payload, w.MutOp = "mutint", verifsim.Pick(r, []string{"add1", "pluseq3", "preinc", "postinc", "postdec", "sub1"})
 			}
 			s.MeanGap = verifsim.Pick(r, []int64{1000, 10000, 100000})
 			s.FocusWeight = verifsim.Pick(r, []int32{10, 100})
@@ -157,10 +161,13 @@ func gen(r *verifsim.Rng, tier string) (any, hx.Sched) {
 		w.ArrayPayload = r.Intn(3) == 0
 		w.Nested = r.Intn(4) == 0
 		if !w.ArrayPayload {
-			w.Payload = verifsim.Pick(r, []string{"", "", "int", "float", "loopint", "numstr", "obj", "keyed"})
+			w.Payload = verifsim.Pick(r, []string{"", "", "int", "float", "loopint", "numstr", "obj", "keyed", "mutint"})
+		}
+		if w.Payload == "mutint" {
+			w.MutOp = verifsim.Pick(r, mutOps)
 		}
 		w.SharedProd = !w.ArrayPayload && w.Payload == "" && r.Intn(4) == 0
-		w.Nulls = !w.SharedProd && w.Payload != "loopint" && len(w.Producers) > 0 && r.Intn(6) == 0
+		w.Nulls = !w.SharedProd && w.Payload != "loopint" && w.Payload != "mutint" && len(w.Producers) > 0 && r.Intn(6) == 0
 		if r.Intn(8) == 0 {
 			// other constructor forms: no argument, a negative number (a string or float argument is a type error)
 			// (the class treats everything but a non-negative int as "unbuffered")
